@@ -415,6 +415,63 @@ pub fn strategy(dim: usize, max_ops: usize) -> BoxedStrategy<Case> {
         .boxed()
 }
 
+
+/// A raw document offered to the deserialiser (coverage-guided target / its replays): first byte
+/// '2'..'4' selects the dimension, the rest is the JSON text.  Rejected, or loaded into a structure
+/// that passes the independent Level 1/2 checks and round-trips once more unchanged.
+#[derive(Debug, Clone, Serialize, Deserialize)]
+pub struct RawDoc {
+    pub hex: String,
+}
+
+fn judge_raw<const D: usize>(txt: &str, log: &mut CaseLog) {
+    log.evals += 1;
+    let Ok(tds) = serde_json::from_str::<TdsD<D>>(txt) else {
+        log.class("raw:rejected");
+        return;
+    };
+    log.class("raw:loaded");
+    let s = Snap::of(&tds);
+    let rep = check(&s, Opts::structural_only());
+    if let Some(first) = rep.issues.iter().find(|i| i.level <= 2) {
+        log.violate(
+            Violation::new(ID, "inconsistent_input_loaded", "from_value", format!("a raw document was loaded (Ok) although the result is structurally inconsistent: L{} {}: {}", first.level, first.kind, first.detail))
+                .fact("dim", D as u64)
+                .fact("oracle_kind", format!("L{}_{}", first.level, first.kind))
+                .fact("lib_validate_ok", tds.validate().is_ok()),
+        );
+        return;
+    }
+    let Ok(again) = serde_json::to_string(&tds) else { return };
+    match serde_json::from_str::<TdsD<D>>(&again) {
+        Ok(t2) => {
+            let (a, b) = (fingerprint(&s, "", true), fingerprint(&Snap::of(&t2), "", true));
+            if a != b {
+                log.violate(Violation::new(ID, "round_trip_differs", "raw_document", format!("a loaded raw document does not survive a second round trip: {}", diff(&a, &b))).fact("dim", D as u64));
+            }
+        }
+        Err(e) => log.violate(Violation::new(ID, "reserialised_document_rejected", "raw_document", format!("a loaded raw document is rejected after being serialised again: {e}")).fact("dim", D as u64)),
+    }
+}
+
+pub fn exec_raw(doc: &RawDoc, log: &mut CaseLog) {
+    let Some(data) = (0..doc.hex.len() / 2).map(|i| u8::from_str_radix(&doc.hex[2 * i..2 * i + 2], 16).ok()).collect::<Option<Vec<u8>>>() else { return };
+    if data.len() < 2 {
+        return;
+    }
+    let Ok(txt) = std::str::from_utf8(&data[1..]) else { return };
+    match data[0] {
+        b'2' => judge_raw::<2>(txt, log),
+        b'3' => judge_raw::<3>(txt, log),
+        b'4' => judge_raw::<4>(txt, log),
+        _ => {}
+    }
+}
+
+pub fn raw_doc(data: &[u8]) -> RawDoc {
+    RawDoc { hex: data.iter().map(|b| format!("{b:02x}")).collect() }
+}
+
 /// Seed corpus for the coverage-guided deserialisation target (fuzz/fuzz_targets/c13_deserialize.rs):
 /// documents of library-built triangulations, each prefixed by one byte '0' + D.
 pub fn emit_corpus(dir: &str) -> i32 {
@@ -471,7 +528,11 @@ pub fn run_shard(ctx: &mut Ctx) {
     }
 }
 
-pub fn replay(_label: &str, case: &Value, ctx: &mut Ctx) -> Option<Violation> {
+pub fn replay(label: &str, case: &Value, ctx: &mut Ctx) -> Option<Violation> {
+    if label == "raw_document" {
+        let c: RawDoc = serde_json::from_value(case.clone()).ok()?;
+        return ctx.run_one("replay", &c, &|c, l| exec_raw(c, l));
+    }
     let c: Case = serde_json::from_value(case.clone()).ok()?;
     ctx.run_one("replay", &c, &|c, l| exec(c, l))
 }
